@@ -393,10 +393,11 @@ class WorkerPool:
 
                     # If we're dealing with a map/init/exit task, send a kill signal to all workers. Otherwise, we're
                     # dealing with an apply task and we only interrupt that one
-                    kill_pool = (
-                        job_id in {INIT_FUNC, EXIT_FUNC} or
-                        isinstance(self._cache[job_id], UnorderedAsyncResultIterator)
-                    )
+                    # The job can have finished in the meantime, in which case there's nothing to time out anymore
+                    job = self._cache.get(job_id)
+                    if job is None:
+                        continue
+                    kill_pool = job_id in {INIT_FUNC, EXIT_FUNC} or isinstance(job, UnorderedAsyncResultIterator)
                     if kill_pool:
                         self._worker_comms.signal_exception_thrown(job_id)
                     self._send_kill_signal_to_worker(worker_id)
@@ -406,7 +407,11 @@ class WorkerPool:
                     err = TimeoutError(f"Worker-{worker_id} {timeout_func_name} timed out (timeout={timeout_var})")
                     job_ids = (set(self._cache.keys()) - {MAIN_PROCESS, EXIT_FUNC}) if job_id == INIT_FUNC else {job_id}
                     for job_id in job_ids:
-                        self._cache[job_id]._set(success=False, result=err)
+                        try:
+                            self._cache[job_id]._set(success=False, result=err)
+                        except KeyError:
+                            # The job finished in the meantime
+                            pass
 
                     if kill_pool:
                         return
